@@ -22,7 +22,7 @@ from .core import TranslatorError
 OUTPUT = "DecodeGen.v"
 ITEMS = ["dg_window_min", "dg_window_max", "dg_max_members", "dg_unlimited", "dg_window_next", "dg_budget",
          "dg_budget_spent", "dg_too_many_members", "dg_gzip_reset", "dg_max_length", "dg_sniff_raw",
-         "dg_remaining", "dg_low", "dg_high", "dg_highc", "dg_lowc", "dg_feed_pause", "dg_chunk_pause",
+         "dg_remaining", "dg_needs_input_clears_pause", "dg_wait_checks_exception", "dg_close_keeps_pending_parser", "dg_low", "dg_high", "dg_highc", "dg_lowc", "dg_feed_pause", "dg_chunk_pause",
          "dg_resume_size", "dg_resume_when_empty", "dg_resume_chunks", "dg_split_stale", "dg_raises", "dg_raise_low", "dg_raise_high",
          "dg_too_large", "dg_maxsize"]
 
@@ -196,6 +196,46 @@ def generate() -> str:
     if len(rem) != 2 or any(ast.dump(v) != _dump("max(required - len(chunk), 0)") for v in rem):
         raise TranslatorError("HttpPayloadParser.feed_data: remaining-length formula changed")
     out.append("(* max(required - len(chunk), 0) *)\nDefinition dg_remaining (required n : N) : N := (N.max (required - n) 0).")
+    # every `return PayloadState.PAYLOAD_NEEDS_INPUT, ...` is preceded by `self._paused = False` (dc85988)
+    def _blocks(node):
+        for n in ast.walk(node):
+            for fld in ("body", "orelse", "finalbody"):
+                b = getattr(n, fld, None)
+                if isinstance(b, list) and b and isinstance(b[0], ast.stmt):
+                    yield b
+    total = cleared = 0
+    for blk in _blocks(pf):
+        for i, st in enumerate(blk):
+            if (isinstance(st, ast.Return) and isinstance(st.value, ast.Tuple) and st.value.elts
+                    and ast.dump(st.value.elts[0]) == _dump("PayloadState.PAYLOAD_NEEDS_INPUT")):
+                total += 1
+                if i > 0 and ast.dump(blk[i - 1]) == ast.dump(ast.parse("self._paused = False").body[0]):
+                    cleared += 1
+    if total == 0 or cleared != total:
+        raise TranslatorError(f"HttpPayloadParser.feed_data: {cleared} of {total} PAYLOAD_NEEDS_INPUT returns clear self._paused first")
+    out.append(f"(* all {total} PAYLOAD_NEEDS_INPUT returns of HttpPayloadParser.feed_data clear _paused first *)\nDefinition dg_needs_input_clears_pause : bool := true.")
+    # StreamReader._wait raises a pending exception before anything else (497a2a6)
+    wfn = core.find_function(ST, "_wait", cls="StreamReader")
+    wbody = [x for x in wfn.body if not (isinstance(x, ast.Expr) and isinstance(x.value, ast.Constant))]
+    if not (wbody and isinstance(wbody[0], ast.If) and ast.dump(wbody[0].test) == _dump("self._exception is not None")
+            and len(wbody[0].body) == 1 and isinstance(wbody[0].body[0], ast.Raise)):
+        raise TranslatorError("StreamReader._wait does not start with `if self._exception is not None: raise self._exception`")
+    out.append("Definition dg_wait_checks_exception : bool := true.")
+    # ResponseHandler.connection_lost keeps the parser while the payload parser is still there (72e5a25)
+    cl = core.find_function("aiohttp/client_proto.py", "connection_lost", cls="ResponseHandler")
+    drops = [n for n in ast.walk(cl) if isinstance(n, ast.If) and len(n.body) == 1 and not n.orelse
+             and ast.dump(n.body[0]) == ast.dump(ast.parse("self._parser = None").body[0])]
+    uncond = [x for x in cl.body if ast.dump(x) == ast.dump(ast.parse("self._parser = None").body[0])]
+    if len(drops) != 1 or uncond or ast.dump(drops[0].test) != _dump("not body_pending"):
+        raise TranslatorError("ResponseHandler.connection_lost: `if not body_pending: self._parser = None` not found (or the parser is dropped unconditionally)")
+    bp = [n.value for n in ast.walk(cl) if isinstance(n, ast.Assign) and isinstance(n.targets[0], ast.Name) and n.targets[0].id == "body_pending"]
+    if sorted(ast.dump(v) for v in bp) != sorted([_dump("False"), _dump("self._parser._payload_parser is not None")]):
+        raise TranslatorError("ResponseHandler.connection_lost: body_pending is not (False, self._parser._payload_parser is not None)")
+    fe = core.find_function(HP, "feed_eof", cls="HttpParser")
+    hm = [n for n in ast.walk(fe) if ast.dump(n) == ast.dump(ast.parse("self._payload_has_more_data = True").body[0])]
+    if len(hm) != 1:
+        raise TranslatorError("HttpParser.feed_eof does not set _payload_has_more_data when the payload parser is not done")
+    out.append("Definition dg_close_keeps_pending_parser : bool := true.")
 
     # ---------------------------------------------------------------- streams.py
     C = "StreamReader"
